@@ -21,6 +21,8 @@ import (
 	"math/rand"
 	"os"
 	"reflect"
+	"runtime"
+	"runtime/debug"
 	"strconv"
 	"strings"
 	"time"
@@ -34,6 +36,7 @@ const (
 	keyNeg    = "redir:negative-fd-panics"
 	keyShared = "redir:reredirect-closes-shared-file"
 	keyEofVal = "redir:value-to-input-port-panics"
+	keyPipeIn = "redir:stdin-redirected-in-pipeline-panics"
 )
 
 // ---- abstract cases (same field names as the TLA+ records)
@@ -75,6 +78,7 @@ type Outcome struct {
 
 type Beh struct {
 	Present []bool    `json:"present"`
+	Piped   bool      `json:"piped"`
 	Redirs  []Redir   `json:"redirs"`
 	Probe   int       `json:"probe"`
 	Acc     []Outcome `json:"acc"`
@@ -133,8 +137,11 @@ func (o Op) render() string {
 	}
 }
 
-func renderForm(rng *rand.Rand, paths []string, head string, ops []Op, skip []bool, redirs []Redir) string {
+func renderForm(rng *rand.Rand, paths []string, piped bool, head string, ops []Op, skip []bool, redirs []Redir) string {
 	ws := []string{head}
+	if piped {
+		ws = []string{"vw:up", "|", head}
+	}
 	for i, o := range ops {
 		if skip != nil && skip[i] {
 			continue
@@ -220,6 +227,21 @@ func matches(got Obs, want Outcome, skip []bool) (ok bool, eofPanic bool, why st
 	return true, eofPanic, ""
 }
 
+// faultKey classifies a fault of the interpreter by the structure of the form.
+func faultKey(piped bool, rs []Redir, panicText string) string {
+	if hasNegative(rs) && strings.Contains(panicText, "index out of range [-") {
+		return keyNeg
+	}
+	if piped && (strings.Contains(panicText, "nil pointer dereference") || strings.Contains(panicText, "close of closed channel")) {
+		for _, r := range rs {
+			if r.Dst == 0 {
+				return keyPipeIn
+			}
+		}
+	}
+	return ""
+}
+
 func hasNegative(rs []Redir) bool {
 	for _, r := range rs {
 		if r.Dst < 0 || (r.T == "dup" && r.Src < -1) {
@@ -265,17 +287,17 @@ func replayBeh(c *lib.Ctx, h *H, probes [][]Op, b Beh, rng *rand.Rand, checkFds 
 	if err := h.Setup(b.Present); err != nil {
 		panic(fmt.Sprintf("setup: %v", err))
 	}
-	code := renderForm(rng, h.paths, "vw:do", ops, skip, b.Redirs)
+	code := renderForm(rng, h.paths, b.Piped, "vw:do", ops, skip, b.Redirs)
 	got, x := h.Run(code)
 	c.AddEvals(1)
 	rc := replayCase{Kind: "G", Code: strings.ReplaceAll(code, h.dir, "DIR"), Beh: &b}
-	key := fmt.Sprintf("G:%v:%s:probe%d", b.Present, redirKey(b.Redirs), b.Probe)
+	key := fmt.Sprintf("G:%v:%v:%s:probe%d", b.Present, b.Piped, redirKey(b.Redirs), b.Probe)
 	if x.Panic != "" {
 		if strings.HasPrefix(x.Panic, "infra:") {
 			panic(x.Panic)
 		}
-		if hasNegative(b.Redirs) && strings.Contains(x.Panic, "index out of range [-") {
-			c.Reject(keyNeg, fmt.Sprintf("%s: fault instead of an exception: %.100s", rc.Code, x.Panic), rc)
+		if k := faultKey(b.Piped, b.Redirs, x.Panic); k != "" {
+			c.Reject(k, fmt.Sprintf("%s: fault: %.100s", rc.Code, x.Panic), rc)
 		} else {
 			c.Reject(key+":fault", fmt.Sprintf("%s: fault: %.300s", rc.Code, x.Panic), rc)
 		}
@@ -284,7 +306,7 @@ func replayBeh(c *lib.Ctx, h *H, probes [][]Op, b Beh, rng *rand.Rand, checkFds 
 	if x.Class == "parse" || x.Class == "compile" {
 		panic(fmt.Sprintf("generator produced a form that does not compile: %q: %v", code, x.Err))
 	}
-	if checkFds && x.FdDelta != 0 {
+	if checkFds && x.FdDelta > 0 { // a negative difference is an earlier faulting form's file being finalised
 		c.Reject(key+":fd-delta", fmt.Sprintf("%s: %+d file descriptors after the form", rc.Code, x.FdDelta), rc)
 		return
 	}
@@ -310,9 +332,10 @@ func replayBeh(c *lib.Ctx, h *H, probes [][]Op, b Beh, rng *rand.Rand, checkFds 
 	c.Reject(key, fmt.Sprintf("%s: %s", rc.Code, why), rc)
 }
 
-func mcCfg(maxR, maxO, neg, hi, npresent int, emit bool, invs ...string) []byte {
-	s := fmt.Sprintf("CONSTANTS MaxR = %d MaxO = %d NegFds = %d DstHi = %d NPresent = %d Emitting = %s\nSPECIFICATION Spec\n",
-		maxR, maxO, neg, hi, npresent, map[bool]string{true: "TRUE", false: "FALSE"}[emit])
+func mcCfg(maxR, maxO, neg, hi, npresent int, piped, emit bool, invs ...string) []byte {
+	tf := map[bool]string{true: "TRUE", false: "FALSE"}
+	s := fmt.Sprintf("CONSTANTS MaxR = %d MaxO = %d NegFds = %d DstHi = %d NPresent = %d Piped = %s Emitting = %s\nSPECIFICATION Spec\n",
+		maxR, maxO, neg, hi, npresent, tf[piped], tf[emit])
 	for _, i := range invs {
 		s += "INVARIANT " + i + "\n"
 	}
@@ -322,8 +345,9 @@ func mcCfg(maxR, maxO, neg, hi, npresent int, emit bool, invs ...string) []byte 
 var designInvs = []string{"TypeOK", "NoLeakInCode", "ClosedAtEnd", "SameControl", "EarlyAgrees", "RaiseStops"}
 
 type genRun struct {
-	name                     string
-	maxR, neg, hi, npresent int
+	Name                    string
+	MaxR, Neg, Hi, NPresent int
+	Piped                   bool
 }
 
 func run(c *lib.Ctx) error {
@@ -342,28 +366,33 @@ func run(c *lib.Ctx) error {
 	}
 	c.Set("rule", "G: one behaviour per (initial files, redirection sequence, probe schedule), distinct by that triple; V: one case per random form, distinct by (files, heads, redirections, body); non-trivial = at least one redirection")
 
+	if os.Getenv("C42_PHASE") == "V" { // development aid: only the V phase
+		return validate(c, h, dir)
+	}
 	// ---- M: design properties, with free body operations in every order
-	mo := genRun{"MCPorts(body)", 1, 1, 3, c.Pick(1, 3)}
-	r, err := c.TLC(mo.name, lib.TLCRun{Dir: dir, Module: "MCPorts", Workers: 4, Timeout: 10 * time.Minute, HeapGB: 6,
-		Files: map[string][]byte{"MCPorts.cfg": mcCfg(mo.maxR, 2, mo.neg, mo.hi, mo.npresent, false, append(designInvs, "EarlyAgreesProbed")...)}})
-	if err != nil {
-		return err
+	mos := []genRun{{"MCPorts(body)", 1, 1, 3, c.Pick(1, 3), false}, {"MCPorts(body,piped)", 1, 0, 3, 1, true}}
+	for _, mo := range mos {
+		r, err := c.TLC(mo.Name, lib.TLCRun{Dir: dir, Module: "MCPorts", Workers: 4, Timeout: 10 * time.Minute, HeapGB: 6,
+			Files: map[string][]byte{"MCPorts.cfg": mcCfg(mo.MaxR, 2, mo.Neg, mo.Hi, mo.NPresent, mo.Piped, false, append(designInvs, "EarlyAgreesProbed")...)}})
+		if err != nil {
+			return err
+		}
+		if r.ErrKind != "" {
+			return lib.Infra("the port model violates its own property %s %s:\n%s", r.ErrKind, r.ErrName, r.ErrTrace)
+		}
+		c.Logf("%s (1 redirection, 2 free body operations): %d states", mo.Name, r.Distinct)
 	}
-	if r.ErrKind != "" {
-		return lib.Infra("the port model violates its own property %s %s:\n%s", r.ErrKind, r.ErrName, r.ErrTrace)
-	}
-	c.Logf("M (1 redirection, 2 free body operations): %d states", r.Distinct)
 
 	// ---- M + G: every redirection sequence, emitted with prescribed outcomes
-	gens := []genRun{{"MCPorts(G,depth2)", 2, 2, 4, c.Pick(1, 3)}}
+	gens := []genRun{{"MCPorts(G,depth2)", 2, 2, 4, c.Pick(1, 3), false}, {"MCPorts(G,depth2,piped)", 2, c.Pick(0, 1), 3, 1, true}}
 	if c.Thorough() {
-		gens = append(gens, genRun{"MCPorts(G,depth3)", 3, 0, 3, 1})
+		gens = append(gens, genRun{"MCPorts(G,depth3)", 3, 0, 3, 1, false})
 	}
-	c.Set("bounds", map[string]any{"G": gens, "M_body": mo})
+	c.Set("bounds", map[string]any{"G": gens, "M_body": mos})
 	total := 0
 	for gi, g := range gens {
-		r, err := c.TLC(g.name, lib.TLCRun{Dir: dir, Module: "MCPorts", Workers: 8, Timeout: 12 * time.Minute, HeapGB: 8,
-			Files: map[string][]byte{"MCPorts.cfg": mcCfg(g.maxR, 0, g.neg, g.hi, g.npresent, true, append(designInvs, "Emit")...)}})
+		r, err := c.TLC(g.Name, lib.TLCRun{Dir: dir, Module: "MCPorts", Workers: 8, Timeout: 12 * time.Minute, HeapGB: 8,
+			Files: map[string][]byte{"MCPorts.cfg": mcCfg(g.MaxR, 0, g.Neg, g.Hi, g.NPresent, g.Piped, true, append(designInvs, "Emit")...)}})
 		if err != nil {
 			return err
 		}
@@ -395,23 +424,27 @@ func run(c *lib.Ctx) error {
 			}
 		}
 		if probes == nil || int64(len(behs)) != r.Distinct*int64(len(probes)) {
-			return lib.Infra("%s: TLC found %d states, received %d behaviours for %d probe schedules", g.name, r.Distinct, len(behs), len(probes))
+			return lib.Infra("%s: TLC found %d states, received %d behaviours for %d probe schedules", g.Name, r.Distinct, len(behs), len(probes))
 		}
-		c.Logf("%s: %d states, %d behaviours", g.name, r.Distinct, len(behs))
+		c.Logf("%s: %d states, %d behaviours", g.Name, r.Distinct, len(behs))
 		t0 := time.Now()
 		for i, b := range behs {
+			if i%256 == 0 {
+				settleGC()
+			}
 			rng := rand.New(rand.NewSource(c.Seed*1_000_003 + int64(i)))
 			replayBeh(c, h, probes, b, rng, true)
 			if len(b.Redirs) > 0 {
-				c.Distinct(fmt.Sprintf("G|%v|%s|%d", b.Present, redirKey(b.Redirs), b.Probe))
+				c.Distinct(fmt.Sprintf("G|%v|%v|%s|%d", b.Present, b.Piped, redirKey(b.Redirs), b.Probe))
 			}
 			if gi == 0 && (i == 40 || i == 400) {
 				c.Sample(map[string]any{"redirs": b.Redirs, "probe": b.Probe, "accepted": b.Acc})
 			}
 		}
+		debug.SetGCPercent(100)
 		c.AddTraces(len(behs))
 		total += len(behs)
-		c.Logf("%s: replayed in %.1fs", g.name, time.Since(t0).Seconds())
+		c.Logf("%s: replayed in %.1fs", g.Name, time.Since(t0).Seconds())
 	}
 	c.Set("behaviours_replayed", total)
 	c.Set("exhaustive", true)
@@ -422,6 +455,16 @@ func run(c *lib.Ctx) error {
 	}
 	c.Assume("TLC trusted; the harness command vw:do reaches port n through fm.Port(n) and Evaler.Call with that port as port 0/1 of a callee using the ordinary accessors (InputFile, InputChan, ByteOutput, ValueOutput); file contents are byte tokens; the caller's ports are the dummy input port and two capture ports; exception classes compared as none / raised-before-the-body / raised-by-the-body; source -1, value output to an input-only channel, value-channel polls of non-input ports and destinations above 64 are Unspecified")
 	return nil
+}
+
+// settleGC finalises files leaked by earlier faulting forms outside the measured windows; the
+// collector is otherwise off while forms are evaluated so that a leaked descriptor stays visible.
+func settleGC() {
+	debug.SetGCPercent(-1)
+	for i := 0; i < 2; i++ {
+		runtime.GC()
+		time.Sleep(time.Millisecond)
+	}
 }
 
 // probe: development aid — evaluates each line of an .elv file as one form (DIR = scratch dir).
@@ -458,7 +501,7 @@ func replay(c *lib.Ctx, h *H, dir string) error {
 	case f.Case.Beh != nil:
 		// the probe schedules come from the model
 		r, err := c.TLC("MCPorts(probes)", lib.TLCRun{Dir: dir, Module: "MCPorts", Timeout: 5 * time.Minute,
-			Files: map[string][]byte{"MCPorts.cfg": mcCfg(0, 0, 0, 0, 1, true, "Emit")}})
+			Files: map[string][]byte{"MCPorts.cfg": mcCfg(0, 0, 0, 0, 1, false, true, "Emit")}})
 		if err != nil {
 			return err
 		}
